@@ -360,6 +360,15 @@ func c02Konv(p *Prog, r *Report) {
 				ok = d.Equal(want)
 			}
 			r.Ob("drain-counter", p.Pos(e.Pos), ok, fmt.Sprintf("ΔDRAINLOSS = %s ; the drain monomial of the convective term at z=DRAIDEP times the mass factor = %s", d, want))
+			// the leaf of the drain layer removes the drain water's N whenever the drain flux is non-zero, wherever the
+			// drain lies (the last layer included): the counter must be booked on every call, outside every loop
+			ng := 0
+			for _, g := range flattenGuards(e.Guards) {
+				if !g.Loop {
+					ng++
+				}
+			}
+			r.Ob("drain-counter:unconditional", p.Pos(e.Pos), ng == 0 && len(e.Loops) == 0, fmt.Sprintf("the drain counter is booked on every call (conditions: %s) — the convective term removes the drain water's N from the drain layer without such a condition", orStr(clip(guardKeys(e.Guards), 120), "none")))
 		}
 	}
 	if nd == 0 {
